@@ -19,7 +19,8 @@ _COMPONENTS_MCACHE = {
 }
 
 _COMPONENTS_AST = {
-    "real": ["pymoca parser, ast, tree.flatten, CasADi / SymPy / XML generators, tools.compiler from the working tree"],
+    "real": ["pymoca parser, ast, tree.flatten, CasADi / SymPy / XML generators, tools.compiler from the working tree",
+             "the reference runs the same code in a separate copy of the package (procs.RefWorld), i.e. in a process of its own"],
     "simulated": ["the callers / owners of trees and the order of their requests and edits"],
     "stub": [],
 }
@@ -36,7 +37,8 @@ CHECKS = {
                 "(EIO, EACCES, ENOENT = vanished, ENOSPC), one at a time, exhaustively; fault_pairs = seeded pairs; "
                 "casadi_faults = the same single-fault enumeration for -t casadi, where the sources are read inside the "
                 "CasADi API: the tool has to count exactly the transfer_model calls that raised (observed by wrapping, not "
-                "replacing, the call). The "
+                "replacing, the call); sequence = 2-3 invocations by ONE process, each judged against its single-run reference; "
+                "a third of the control invocations use relative names from inside the sandbox (@lib, @out ...). The "
                 "exit status is compared with a staged reference (argparse -> 2; usage errors; unreadable/unparsable "
                 "files or no file; failing models incl. those whose output write was hit by a fired fault). "
                 "distinct_nontrivial = distinct (invocation, fired fault set).",
@@ -61,7 +63,9 @@ CHECKS = {
                 "permutations of <= 4 entries per directory; flat, nested and standard package.mo-per-directory layouts, "
                 "the latter with equal base names in several directories); the API result is also compared (compiles? same "
                 "variables?) with the API run on the single-file library. A fifth of the libraries have a top package "
-                "whose own declaration is nothing but an import clause. distinct_nontrivial = distinct "
+                "whose own declaration is nothing but an import clause. folders: the files spread over model and library "
+                "folders (prefix-named) given in every order. threads: two threads of one process merge two libraries at the "
+                "same time, pre-empted at every line of pymoca/ast.py inside Tree.extend. distinct_nontrivial = distinct "
                 "(split shape, permutation class, entry point, file assignment/order).",
         "assumptions": ["the per-file declaration counter Symbol.order is not part of the flattened model and is ignored "
                         "in the comparison", "walk leg: models compared across directory orders (not with the single file), "
@@ -90,7 +94,8 @@ CHECKS = {
         "level": "exploration",
         "rule": "Forests of trees created by copy.deepcopy (copies of copies up to depth 3) whose owners interleave "
                 "add/remove symbol/equation/class edits and grafts (a copy of one class of ANOTHER owner's tree, taken with "
-                "find_class / deepcopy / copy_including_children, put in place of the class of the same name); after every edit the edited class, a class reaching it through a "
+                "find_class / deepcopy / copy_including_children, put in place of the class of the same name), replacements of a "
+                "class by a same-named class of the other kind, and a motif (backend, balanced edit, backend); after every edit the edited class, a class reaching it through a "
                 "component type and one through extends are flattened (via a throw-away deep copy, and via the SymPy/XML "
                 "backends, and directly as the last use) on the edited tree (edit visible) and on another tree (invisible) "
                 "and compared with a fresh parse + replayed edit log. distinct_nontrivial = distinct (library, copy depth, "
@@ -136,14 +141,17 @@ CHECKS = {
         "engine": "mcache",
         "level": "exploration",
         "rule": "Seeded histories of 4-12 operations (30 % built around a revisit motif A -> B -> A of options, version or "
-                "file contents), in three folder layouts (library beside the model folder, beside it with a common name "
-                "prefix, inside it; a sub-directory of the library may be a symlink): edit a model or library file (mtime strictly later than the cache, "
+                "file contents), in four folder layouts (library beside the model folder, beside it with a common name "
+                "prefix, inside it, names with blanks and glob characters; a sub-directory of the library may be a symlink; "
+                "one pool model has its library in two folders), with the clock that stamps files skewed against the "
+                "process clock, whitespace-only edits where whitespace matters, a switch to another library folder "
+                "holding newer files, and models that the caller uses only at the end of the history: edit a model or library file (mtime strictly later than the cache, "
                 "also after backward clock jumps), add a missing file, change option set, change version, restart, clock "
                 "jump, transfer_model; after every transfer the result is compared with a fresh compile of the current "
                 "sources. distinct_nontrivial = distinct (model, option set, pending invalidation causes, same process?, "
                 "cache present?) states at a transfer. Config codegen: the same with compiled shared libraries, every "
                 "simulated process a real child interpreter, short histories (a build costs seconds).",
-        "assumptions": ["mtime_check=False, changing the set of library folders, edits with preserved/older mtimes and "
+        "assumptions": ["mtime_check=False, switching to a library folder whose files are OLDER than the cache, edits with preserved/older mtimes and "
                         "deletions are outside the property's precondition and not generated",
                         "codegen: the C compiler and linker run for real and are not interleaved with anything"],
         "components": _COMPONENTS_MCACHE,
@@ -159,7 +167,8 @@ CHECKS = {
                 "process must get a correct model twice. codegen_crash: compiled-library format - build, a cause for a rebuild "
                 "(options / edit / version), the rebuilding process killed at one of its file operations (between the "
                 "library builds, inside the cache-file write), then new processes ask again, mostly with the options / "
-                "version the surviving cache file was written for. distinct_nontrivial = distinct crash points that fired + "
+                "version the surviving cache file was written for. A third of the truncations hit the second generation "
+                "of the cache (build, edit, build). distinct_nontrivial = distinct crash points that fired + "
                 "distinct truncation lengths + distinct race schedule signatures.",
         "assumptions": ["process-kill durability (bytes handed to write() are on disk, in order); power-loss reordering is "
                         "not simulated", "byte-offset enumeration and races: pickle format; codegen format: kill points at the "
@@ -169,11 +178,11 @@ CHECKS = {
     "C01": {
         "engine": "pcache_seq",
         "level": "exploration",
-        "rule": "Seeded histories of 4-30 operations on one cache folder: parse(text from a seeded pool of valid, "
-                "whitespace-variant and syntactically broken texts; expiration/update flags; folder given or default), "
+        "rule": "Seeded histories of 4-30 operations on one cache folder: parse(a fresh string object holding a text from a "
+                "seeded pool of valid, whitespace-variant, same-length twin, deeply nested and syntactically broken texts; expiration/update flags; folder given or default), "
                 "process restart, version change (3 labels + a dirty one), clock jumps (+1 s .. +400 d, -1 d, -40 d), "
                 "crash of the process between two SQL statements, corruption of an entry (garbage, prefix, empty, "
-                "class gone, NULL), of the table layout and of the database file (garbage, truncations, byte flips, deletion, "
+                "class gone, NULL, damaged last_hit values), of the table layout and of the database file (garbage, truncations, byte flips, deletion, "
                 "and page-level damage that leaves every row well-formed: index entries pointing at the wrong rows); configs "
                 "nofault / faults. "
                 "distinct_nontrivial = distinct (abstract state, operation) pairs executed by parse operations, where "
@@ -195,7 +204,8 @@ CHECKS = {
                 "and a stand-in process that holds the EXCLUSIVE/RESERVED lock for 0.3-12 s as one stalled inside COMMIT "
                 "does), crash (a process killed at a yield point), crowd (6-16 processes released at once), fine (every LINE of "
                 "the cache code in parser.py is a pre-emption point and a possible kill point as well, via sys.settrace in "
-                "the actor threads, so check-then-act sequences between two seam calls interleave). "
+                "the actor threads, so check-then-act sequences between two seam calls interleave). Processes may have used another "
+                "cache database before (non-empty per-process memo). "
                 "distinct_nontrivial = distinct schedule signatures (hash of the sequence of (actor, seam kind, SQL verb)) "
                 "in which at least one lock conflict occurred (busy handler invoked or immediate SQLITE_BUSY).",
         "assumptions": ["SQLite's own page/journal writes are trusted (no VFS shim)", "a seeded sample of schedules, not "
